@@ -5,3 +5,5 @@ import BalmProofs.Props.C05
 #print axioms Balm.Impl.attractors_sound
 #print axioms Balm.Impl.attractors_complete
 #print axioms Balm.Impl.mem_ownAttrs
+#print axioms Balm.Impl.exclusion_sound
+#print axioms Balm.Impl.ordBelow_own
